@@ -2,8 +2,10 @@
 
 pub mod c04;
 pub mod c06;
+pub mod c12;
 pub mod c14;
 pub mod c15;
+pub mod c16;
 
 use crate::scenario::*;
 
